@@ -44,6 +44,10 @@ class _PatternProxy:
         return self._call("findall", s, *a, **k)
 
 
+# native probes used only when a symbolic run never returns (see vf/ch.py: hang triage)
+HANG_PROBES = {"o_split": [{"s": x} for x in ["]", "C]", "]C", "[]]", "C]C", "]]", "[C]]", "-]"]]}
+
+
 def install_stubs() -> None:
     CU.CONDENSED_CHEM_FORMULA_PATTERN = _PatternProxy(CU.CONDENSED_CHEM_FORMULA_PATTERN)
     CU.ISOTOPE_COMPONENT_PATTERN = _PatternProxy(CU.ISOTOPE_COMPONENT_PATTERN)
